@@ -198,7 +198,8 @@ fn main() {
         } else if r1 != r2 || !r1.contains(sig) {
             eprintln!("signature {sig}: replay gave {r1:?} then {r2:?}");
             let path = write_replay(v, 900 + n);
-            if prop == "C20" && v.replay.get("engine").and_then(|m| m.as_str()) == Some("SM") {
+            if prop == "C20" {
+                // (whatever the engine: every family of the C20 check replays agent histories)
                 // For C20 this is the property itself: the same call history, replayed on fresh
                 // agents of this process, does not give the same replies every time (the explorer
                 // saw `sig`, two replays of the recorded history gave r1 and r2).
